@@ -88,6 +88,10 @@ def gen_case(rng: random.Random, tier: str):
             members = []
             for j in range(rng.randint(1, 5)):
                 m = nid("M")
+                if consts and rng.random() < 0.12 and not any(c[0] in members for c in consts):
+                    # a member that happens to be spelled like a #define loaded before or after (no dependency: inside the
+                    # enum, earlier members are looked up first, so the definitions do not refer to each other)
+                    m = rng.choice(consts)[0]
                 if j:
                     toks.append(",")
                 toks.append(("M", m))
